@@ -16,10 +16,11 @@ static const char *SETTER_NAMES[] = {"asm_mov_imm", "asm_sib_index_base_swap", "
 static const char *value_name(int v) { return v == 0 ? "STRICT" : v == 1 ? "NASM" : v == 2 ? "SMART" : nullptr; }
 
 std::string Op::text() const {
+  static const char *SEP[] = {"\n", "\r\n", "\r"};
   std::string t;
   for (size_t i = 0; i < lines.size(); i++) {
     t += lines[i];
-    if (i + 1 < lines.size() || final_nl) t.push_back('\n');
+    if (i + 1 < lines.size() || final_nl) t += SEP[sep % 3];
   }
   return t;
 }
@@ -94,6 +95,7 @@ static Json op_to_json(const Op &op) {
     case OP_COUNT:
       o.set("lines", strs(op.lines));
       if (!op.final_nl) o.setb("final_newline", false);
+      if (op.sep) o.set("line_end", op.sep == 1 ? "CRLF" : "CR");
       if (op.kind == OP_COUNT) o.set("c", op.c);
       break;
     case OP_ASM_FILE:
@@ -156,6 +158,7 @@ static bool op_from_json(const Json &o, Op &op, std::string *err) {
   if (const Json *l = o.get("lines"))
     for (const Json &s : l->a) op.lines.push_back(s.s);
   op.final_nl = o.boolean("final_newline", true);
+  op.sep = o.str("line_end") == "CRLF" ? 1 : o.str("line_end") == "CR" ? 2 : 0;
   op.path = o.str("path");
   op.alias = o.boolean("alias");
   op.fresh_twin = o.boolean("fresh_twin");
@@ -196,6 +199,7 @@ Json plan_to_json(const Plan &p) {
   if (p.probe) w.setb("probe_options_after_setters", true);
   if (p.recover) w.setb("recover_after_fault", true);
   if (p.world.sabotage) w.set("sabotage", p.world.sabotage);
+  if (p.world.fd0_free) w.setb("descriptor_0_free", true);
   if (!p.world.files.empty()) {
     Json fa = Json::Arr();
     for (const FileSpec &f : p.world.files) {
@@ -262,6 +266,7 @@ bool plan_from_json(const Json &j, Plan &p, std::string *err) {
     p.probe = w->boolean("probe_options_after_setters");
     p.recover = w->boolean("recover_after_fault");
     p.world.sabotage = (int)w->num("sabotage");
+    p.world.fd0_free = w->boolean("descriptor_0_free");
     if (const Json *fa = w->get("files"))
       for (const Json &fo : fa->a) {
         FileSpec f;
@@ -310,7 +315,7 @@ uint64_t plan_hash(const Plan &p) {
   mixi((uint64_t)p.world.mem_policy);
   mixi(p.world.salt);
   mixi((uint64_t)p.world.behind);
-  mixi((uint64_t)p.world.sabotage);
+  mixi((uint64_t)p.world.sabotage * 2 + (uint64_t)p.world.fd0_free);
   mixi((uint64_t)p.probe * 2 + (uint64_t)p.recover);
   for (const FileSpec &f : p.world.files) {
     mixs(f.path);
@@ -326,7 +331,7 @@ uint64_t plan_hash(const Plan &p) {
       mixi((uint64_t)o.which << 32 | (uint32_t)o.value);
       mixi((uint64_t)o.c);
       mixi((uint64_t)o.k);
-      mixi((uint64_t)o.on + 2 * (uint64_t)o.from_stdin);
+      mixi((uint64_t)o.on + 2 * (uint64_t)o.from_stdin + 4 * (uint64_t)o.sep);
       for (const std::string &l : o.lines) mixs(l);
       mixs(o.path);
       for (const EnvAns &e : o.env) mixi((uint64_t)e.call << 48 | (uint64_t)(e.nth & 0xffff) << 32 | (uint64_t)e.ans << 24 | (uint64_t)(e.err & 0xff) << 16 | (uint64_t)(e.arg & 0xffff));
